@@ -174,6 +174,13 @@ class World:
 
         def rec(name, val):
             def fn(me, state, t, _n=name, _v=val):
+                # the evaluators take (state, time): what they are handed must have those roles
+                st_ok = (isinstance(state, SymArr) and state.size == w.nS) or (isinstance(state, (list, tuple)) and len(state) == w.nS)
+                t_ok = not (isinstance(t, SymArr) and t.size != 1) and not isinstance(t, (list, tuple))
+                if not (st_ok and t_ok):
+                    raise Raised("TypeError(%s called with (%s, %s): the evaluators take (state of length %d, time))" % (
+                        _n, "array of %d" % state.size if isinstance(state, SymArr) else type(state).__name__,
+                        "array of %d" % t.size if isinstance(t, SymArr) else type(t).__name__, w.nS))
                 w.calls.append((_n, state, t))
                 return _v.copy()
             return fn
